@@ -587,6 +587,13 @@ func expandParameterOrResponse(input interface{}, resolver *schemaLoader, basePa
 			} else {
 				sch.Ref = rebasedRef
 			}
+
+			// the rewritten $ref is relative to the root document: it is final
+			if ref != nil {
+				*ref = Ref{}
+			}
+
+			return nil
 		}
 	}
 
